@@ -63,6 +63,7 @@ structure M where
   nOpen : Nat := 0
   nSteal : Nat := 0
   nBatch : Nat := 0
+  nBatchOver : Nat := 0
   nSpur : Nat := 0
   nMiss : Nat := 0
   nGc : Nat := 0
@@ -346,19 +347,23 @@ def onEvent (m : M) (tid kind a b : Nat) : M :=
       | none => fail m "sched:unknown-packet" s!"BucketPollOk by {w}: packet {a} is not in bucket {st} of the model"
     | none => fail m "sched:shape" "BucketPollOk outside a worker"
   | 44 => match wk with
-    | some w => { m with credit := (w, a, b) :: m.credit.filter (·.1 != w) }
+    | some w =>
+      -- credits accumulate: a thief may reveal a packet of an older batch after a newer batch poll
+      let old := (m.credit.find? (fun e => e.1 == w && e.2.1 == a)).map (·.2.2) |>.getD 0
+      { m with credit := (w, a, old + b) :: m.credit.filter (fun e => !(e.1 == w && e.2.1 == a)) }
     | none => m
-  | 200 => -- BatchMove (pseudo): a = pid, b = tag with the stage of the bucket
+  | 200 => -- BatchMove (pseudo): a = pid, b = tag with the stage of the bucket; tid = the polling worker.
+    -- The logged batch size is a lower bound and the poller's own `BucketPollOk` may be logged after a
+    -- thief's `WorkerSteal` of a batch-moved packet, so the credit is only accounted, not enforced.
     match wk with
     | some w =>
-      match m.credit.find? (·.1 == w) with
-      | some (_, st, k) =>
-        if k == 0 || st != stageOf b then fail m "sched:batch" s!"batch move by {w} beyond what steal_batch_and_pop reported" else
-        match findKey (m.s.bkt st).q (keyOf a b) with
-        | some p => act { m with credit := (w, st, k - 1) :: m.credit.filter (·.1 != w), nBatch := m.nBatch + 1 }
-                      (.batchMove w st p) s!"batchMove {w} bucket {st}"
-        | none => fail m "sched:unknown-packet" s!"batch move by {w}: packet {a} is not in bucket {st}"
-      | none => fail m "sched:batch" s!"batch move by {w} without BucketPollBatch"
+      let st := stageOf b
+      let k := (m.credit.find? (fun e => e.1 == w && e.2.1 == st)).map (·.2.2) |>.getD 0
+      let m := if k == 0 then { m with nBatchOver := m.nBatchOver + 1 }
+               else { m with credit := (w, st, k - 1) :: m.credit.filter (fun e => !(e.1 == w && e.2.1 == st)) }
+      match findKey (m.s.bkt st).q (keyOf a b) with
+      | some p => act { m with nBatch := m.nBatch + 1 } (.batchMove w st p) s!"batchMove {w} bucket {st}"
+      | none => fail m "sched:unknown-packet" s!"batch move by {w}: packet {a} is not in bucket {st}"
     | none => m
   | 21 => match wk with
     | some w => let before := m.s.nextId
@@ -463,7 +468,7 @@ def processTok (m : M) (tok : String) : M :=
 
 def summary (m : M) : String :=
   s!"events={m.nEv} gcs={m.nGc} exits={m.nExit} parks={m.nPark} lastparked={m.nLast} opens={m.nOpen} " ++
-  s!"sentinels={m.nSent} steals={m.nSteal} batch={m.nBatch} spurious={m.nSpur} misses={m.nMiss} " ++
+  s!"sentinels={m.nSent} steals={m.nSteal} batch={m.nBatch} batchover={m.nBatchOver} spurious={m.nSpur} misses={m.nMiss} " ++
   s!"packets={m.s.added} started={m.s.started} ended={m.s.ended} resumes={m.s.resumes} stops={m.s.stops} maxq={m.maxQ}"
 
 /-- `schedm <op> …` -/
